@@ -31,7 +31,11 @@ HintsOK(x) ==
       iter == IF ParamsFrom(P) = "info2" /\ x.et \notin {16, 23} THEN BEVal(FromHex(x.iter2)) ELSE DefaultIter(x.et)
   IN /\ x.panic = "" /\ ~x.err /\ x.keytype = x.et /\ x.retet = x.et
      /\ FromHex(x.key) = StringToKey(x.et, FromHex(x.pw), x.cps, salt, iter)
-GenKeyOK(x) == x.panic = "" /\ ~x.generr /\ x.keytype = x.et /\ x.keylen = KeyLen(x.et) /\ x.usable
+\* a generated key has the etype's length, works in the library's own encryption, and is a key of that etype for everybody else too:
+\* for des3 a value random-to-key produces (the other etypes accept every string of the right length)
+GenKeyOK(x) == /\ x.panic = "" /\ ~x.generr /\ x.keytype = x.et /\ x.keylen = KeyLen(x.et) /\ x.usable
+               /\ Len(FromHex(x.key)) = x.keylen
+               /\ x.et = 16 => ValidDES3Key(FromHex(x.key))
 LineOK(x) == CASE x.ev = "s2k" -> S2KOK(x) [] x.ev = "s2kbad" -> S2KBadOK(x) [] x.ev = "nfold" -> NFoldOK(x)
                [] x.ev = "dk" -> DKOK(x) [] x.ev = "kdf" -> KDFOK(x) [] x.ev = "r2k" -> R2KOK(x)
                [] x.ev = "hints" -> HintsOK(x) [] x.ev = "genkey" -> GenKeyOK(x)
